@@ -124,6 +124,10 @@ def eqv(a, b):
         a = summaries._as_float(a if isinstance(a, Fraction) else Fraction(a))
     if isinstance(b, (Fraction, int)):
         b = summaries._as_float(b if isinstance(b, Fraction) else Fraction(b))
+    if isinstance(a, float):
+        a = Float.from_float(a)
+    if isinstance(b, float):
+        b = Float.from_float(b)
     if not isinstance(a, Float) or not isinstance(b, Float):
         return a == b
     if a.isnan or b.isnan:
@@ -132,6 +136,7 @@ def eqv(a, b):
         if not (a.isinf and b.isinf):
             return False
         return _beq(summaries._sbool(a), summaries._sbool(b))
+    a, b = summaries._as_float(a), summaries._as_float(b)      # concrete significands without trailing zeros
     if type(a.exp) is SymInt or type(b.exp) is SymInt:
         raise NotImplementedError('symbolic exponent in a result')
     ex = min(a.exp, b.exp)
